@@ -12,7 +12,7 @@ m = json.load(open(p)) if os.path.exists(p) else {}
 head = subprocess.run(["git", "-C", "/repo", "rev-parse", "--short", "HEAD"], capture_output=True, text=True).stdout.strip()
 m["property"] = prop
 m["verified_by_lead"] = {"applied_to": f"scratch worktree of /repo at {head}",
-                         "demo": "fails with the change, passes without it (seeding agent's own with/without verification via git apply -R; patch applies and builds on HEAD)",
+                         "demo": os.environ.get("SEED_DEMO_NOTE", "fails with the change, passes without it (re-run both ways by the lead in a scratch worktree of HEAD: tools/seedtest.sh)"),
                          "check_result": result}
 json.dump(m, open(p, "w"), indent=1)
 print("saved", dst)
